@@ -236,26 +236,29 @@ def shard_corrupt(ctx, part, nparts):
         good = list(tables[tname][key])
         for what, bad in corruptions(good):
             for direction in ("source", "target"):
-                spec = {
-                    "kind": "corrupt",
-                    "table": tname,
-                    "key": list(key),
-                    "what": list(what),
-                    "direction": direction,
-                }
-                problems = check_corrupt(good, bad, key, direction, f"{what[0]}/{direction}")
-                ctx.record(spec, True, [f"corrupt:{what[0]}"])
-                ctx.report(spec, problems)
+                for reverse in (False, True):
+                    spec = {
+                        "kind": "corrupt",
+                        "table": tname,
+                        "key": list(key),
+                        "what": list(what),
+                        "direction": direction,
+                        "reverse": reverse,
+                    }
+                    tag = f"{what[0]}/{direction}" + ("/reverse" if reverse else "")
+                    problems = check_corrupt(good, bad, key, direction, tag, reverse)
+                    ctx.record(spec, True, [f"corrupt:{what[0]}"])
+                    ctx.report(spec, problems)
 
 
-def check_corrupt(good, bad, key, direction, tag):
+def check_corrupt(good, bad, key, direction, tag, reverse=False):
     from iodata.convert import convert_conventions
 
     try:
         if direction == "source":
-            out = convert_conventions(one_shell_basis(key, {key: bad}), {key: good})
+            out = convert_conventions(one_shell_basis(key, {key: bad}), {key: good}, reverse)
         else:
-            out = convert_conventions(one_shell_basis(key, {key: good}), {key: bad})
+            out = convert_conventions(one_shell_basis(key, {key: good}), {key: bad}, reverse)
     except Exception:
         return []
     return [
@@ -403,6 +406,8 @@ def replay(entry):
         good = list(tables[spec["table"]][key])
         for what, bad in corruptions(good):
             if list(what) == spec["what"] or [str(w) for w in what] == [str(w) for w in spec["what"]]:
-                return check_corrupt(good, bad, key, spec["direction"], f"{what[0]}/{spec['direction']}")
+                rev = bool(spec.get("reverse"))
+                tag = f"{what[0]}/{spec['direction']}" + ("/reverse" if rev else "")
+                return check_corrupt(good, bad, key, spec["direction"], tag, rev)
         return []
     raise ValueError(kind)
